@@ -397,3 +397,147 @@ Section Completed.
       btauto.
   Qed.
 End Completed.
+
+(* ---------------------------------------------------------------- update_conf: completion *)
+
+Definition is_dict (v : jv) : bool := match v with JDict _ => true | _ => false end.
+
+Lemma upd_nil dv : upd dv (JDict []) = Ok dv.
+Proof. reflexivity. Qed.
+
+Lemma upd_cons_val ad k v rest : is_dict v = false ->
+  upd (JDict ad) (JDict ((k, v) :: rest)) = upd (JDict (set_key k (conv_special v) ad)) (JDict rest).
+Proof. destruct v; try discriminate; reflexivity. Qed.
+
+Lemma upd_cons_dict ad k x rest :
+  upd (JDict ad) (JDict ((k, JDict x) :: rest))
+  = match upd (match lookup k ad with Some y => y | None => JDict [] end) (JDict x) with
+    | Ok nv => upd (JDict (set_key k nv ad)) (JDict rest)
+    | Raise e => Raise e
+    end.
+Proof. reflexivity. Qed.
+
+Definition set_all (ud dd : dict) : dict :=
+  fold_left (fun acc kv => set_key (fst kv) (conv_special (snd kv)) acc) ud dd.
+
+Lemma upd_flat ud : forall dd, (forall k v, In (k, v) ud -> is_dict v = false) ->
+  upd (JDict dd) (JDict ud) = Ok (JDict (set_all ud dd)).
+Proof.
+  induction ud as [|[k v] rest IH]; intros dd H; [reflexivity|].
+  rewrite upd_cons_val by (apply (H k v); now left).
+  rewrite IH by (intros k' v' Hin; apply (H k' v'); now right). reflexivity.
+Qed.
+
+Lemma lookup_set_key k k' v d :
+  lookup k (set_key k' v d) = if String.eqb k k' then Some v else lookup k d.
+Proof.
+  induction d as [|[k0 v0] r IH]; cbn.
+  - now destruct (String.eqb k k').
+  - destruct (String.eqb k' k0) eqn:E0; cbn.
+    + apply String.eqb_eq in E0. subst k0. now destruct (String.eqb k k').
+    + destruct (String.eqb k k0) eqn:E1.
+      * destruct (String.eqb k k') eqn:E2; [|reflexivity].
+        apply String.eqb_eq in E1, E2. subst. now rewrite String.eqb_refl in E0.
+      * exact IH.
+Qed.
+
+Lemma lookup_none_not_in k (d : dict) : ~ In k (keys d) -> lookup k d = None.
+Proof.
+  induction d as [|[k0 v0] r IH]; cbn; [reflexivity|]. intro H.
+  destruct (String.eqb k k0) eqn:E; [apply String.eqb_eq in E; subst; tauto|]. apply IH. tauto.
+Qed.
+
+Lemma lookup_set_all ud : forall dd k, NoDup (keys ud) ->
+  lookup k (set_all ud dd) = match lookup k ud with Some v => Some (conv_special v) | None => lookup k dd end.
+Proof.
+  induction ud as [|[k0 v0] rest IH]; intros dd k ND; [reflexivity|].
+  cbn in ND. inversion ND as [|? ? Hnot ND']; subst.
+  unfold set_all. cbn [fold_left fst snd]. fold (set_all rest (set_key k0 (conv_special v0) dd)).
+  rewrite IH by exact ND'. cbn [lookup].
+  destruct (String.eqb k k0) eqn:E.
+  - apply String.eqb_eq in E. subst k0. rewrite (lookup_none_not_in k rest Hnot).
+    now rewrite lookup_set_key, String.eqb_refl.
+  - destruct (lookup k rest); [reflexivity|]. now rewrite lookup_set_key, E.
+Qed.
+
+(* a value of the section, by side and key *)
+Definition field (cfg : jv) (side key : string) : option jv :=
+  match jget cfg "input" with
+  | Some inp => match jget inp side with Some s => jget s key | None => None end
+  | None => None
+  end.
+
+Definition no_dict_value (d : dict) : Prop := forall k v, In (k, v) d -> is_dict v = false.
+
+(* the user section {"input": {"left": L, "right": R}} (either order of the two sides) is completed
+   into a section that holds, for every key, the user's value ("NaN"/"inf"/"-inf" converted) and
+   otherwise the documented default *)
+Lemma input_completion_lr L R (swap : bool) :
+  NoDup (keys L) -> NoDup (keys R) -> no_dict_value L -> no_dict_value R ->
+  let sides := if swap then [("right", JDict R); ("left", JDict L)] else [("left", JDict L); ("right", JDict R)] in
+  let user := JDict [("input", JDict sides)] in
+  exists cfg, upd (JDict default_short_configuration_input) user = Ok cfg /\
+    forall side key, side = "left" \/ side = "right" ->
+      field cfg side key = match field user side key with
+                           | Some v => Some (conv_special v)
+                           | None => documented_default side key
+                           end.
+Proof.
+  intros NL NR DL DR sides user. subst user sides.
+  destruct swap.
+  - eexists. split.
+    + rewrite upd_cons_dict. cbn [lookup default_short_configuration_input String.eqb Ascii.eqb Bool.eqb].
+      rewrite upd_cons_dict. cbn [lookup String.eqb Ascii.eqb Bool.eqb].
+      rewrite (upd_flat R _ DR). rewrite upd_cons_dict. cbn [lookup set_key String.eqb Ascii.eqb Bool.eqb].
+      rewrite (upd_flat L _ DL). rewrite upd_nil. rewrite upd_nil. reflexivity.
+    + intros side key [->| ->]; unfold field; cbn [jget lookup set_key String.eqb Ascii.eqb Bool.eqb];
+        rewrite lookup_set_all by assumption; (destruct (lookup key L) || destruct (lookup key R)); try reflexivity;
+        unfold documented_default; cbn [lookup];
+        repeat (match goal with |- context [String.eqb key ?s] => destruct (String.eqb key s) eqn:? end; cbn; try reflexivity).
+  - eexists. split.
+    + rewrite upd_cons_dict. cbn [lookup default_short_configuration_input String.eqb Ascii.eqb Bool.eqb].
+      rewrite upd_cons_dict. cbn [lookup String.eqb Ascii.eqb Bool.eqb].
+      rewrite (upd_flat L _ DL). rewrite upd_cons_dict. cbn [lookup set_key String.eqb Ascii.eqb Bool.eqb].
+      rewrite (upd_flat R _ DR). rewrite upd_nil. rewrite upd_nil. reflexivity.
+    + intros side key [->| ->]; unfold field; cbn [jget lookup set_key String.eqb Ascii.eqb Bool.eqb];
+        rewrite lookup_set_all by assumption; (destruct (lookup key L) || destruct (lookup key R)); try reflexivity;
+        unfold documented_default; cbn [lookup];
+        repeat (match goal with |- context [String.eqb key ?s] => destruct (String.eqb key s) eqn:? end; cbn; try reflexivity).
+Qed.
+
+(* ---------------------------------------------------------------- the whole function *)
+
+Lemma check_input_section_spec fs user cfg :
+  pandora_check_input_section fs user = Ok cfg <->
+  upd (JDict default_short_configuration_input) user = Ok cfg /\ is_ok (pandora_check_completed fs cfg) = true.
+Proof.
+  unfold pandora_check_input_section, check_input_section, pandora_check_completed.
+  destruct (upd (JDict default_short_configuration_input) user) as [c|e]; cbn [bind].
+  - split.
+    + intro H. destruct (check_completed fs gen_schemas images_checked c) as [[]|e] eqn:E; cbn [bind] in H; [|discriminate].
+      inversion H; subst. split; [reflexivity|]. now rewrite E.
+    + intros [H1 H2]. inversion H1; subst.
+      destruct (check_completed fs gen_schemas images_checked cfg) as [[]|e]; [reflexivity | discriminate].
+  - split; [discriminate | intros [H _]; discriminate].
+Qed.
+
+(* ---------------------------------------------------------------- refusal comes first *)
+
+Lemma started_stops raises : forall calls c x i j,
+  index_str c calls = Some i -> index_str x calls = Some j -> (i < j)%nat -> raises c = true ->
+  ~ In x (started raises calls).
+Proof.
+  induction calls as [|y rest IH]; intros c x i j Hc Hx Hij Hr; [discriminate|].
+  cbn [index_str] in Hc, Hx. cbn [started].
+  destruct (String.eqb x y) eqn:Exy.
+  { inversion Hx; subst. lia. }
+  apply String.eqb_neq in Exy.
+  destruct (String.eqb c y) eqn:Ecy.
+  - apply String.eqb_eq in Ecy. subst y. rewrite Hr. intros [H|[]]. congruence.
+  - destruct (index_str c rest) as [i'|] eqn:Ei; [|discriminate].
+    destruct (index_str x rest) as [j'|] eqn:Ej; [|discriminate].
+    inversion Hc; inversion Hx; subst.
+    intros [H|H]; [congruence|].
+    destruct (raises y); [destruct H|].
+    apply (IH c x i' j' Ei Ej) in H; [exact H | lia | exact Hr].
+Qed.
